@@ -314,10 +314,35 @@ def features(rec):
         w(ms)
         return any(n > 1 for n in cnt.values())
 
+    # two DIFFERENT tested variables of one definer type in one container (the generator names the
+    # synthesised type <container>_<definer type>: both get the same name)
+    def two_tested(ms):
+        tyof, tested = {}, set()
+
+        def w(ms2):
+            for m in ms2:
+                if m["m"] == "decl":
+                    tyof[m["name"]] = m["type"]
+                elif m["m"] == "if":
+                    tested.add(m["arms"][0]["conds"][0]["var"])
+                    for a in m["arms"]:
+                        w(a["body"])
+                    if m["haselse"]:
+                        w(m["els"])
+                elif m["m"] == "optional":
+                    w(m["body"])
+        w(ms)
+        tys = [tyof.get(v) for v in tested]
+        return len(tys) != len(set(tys))
+
     for s in rec["structs"]:
         walk(s["members"], "struct", 0, "")
         if multi(s["members"]):
             fs.add("variable_tested_by_several_ifs")
+        if two_tested(s["members"]):
+            fs.add("shape:two_tested_one_type")
+    if two_tested(rec["members"]):
+        fs.add("shape:two_tested_one_type")
     walk(rec["members"], "message", 0, "")
     if multi(rec["members"]):
         fs.add("variable_tested_by_several_ifs")
